@@ -409,6 +409,333 @@ theorem lexes_gap : ∀ (n : Nat) (ps : List Piece) (r : Str) (T : List Tok), ps
           (by simp [gapText, Piece.text]; omega) ?_
         exact ih (dropE ps) r T (by have := dropE_len ps; simp at hn; omega) (dropE_ok ps hok') hr hT
 
+/-! ### every token class of the language by its text: numeric literals (sign, mantissa, exponent), radix literals, raw strings -/
+
+/-- the sign of a numeric literal: absent, `+` or `-` -/
+def IsSign (s : Str) : Prop := s = [] ∨ s = ['+'] ∨ s = ['-']
+
+/-- `[0-9]*\.?[0-9]+` -/
+inductive FracText : Str → Prop
+  | int (ip : Str) (h : ip.all isDigit = true) (hne : ip ≠ []) : FracText ip
+  | frac (ip fp : Str) (hi : ip.all isDigit = true) (hf : fp.all isDigit = true) (hne : fp ≠ []) : FracText (ip ++ '.' :: fp)
+
+/-- `([eE][-+]?[0-9]+)?` -/
+inductive ExpText : Str → Prop
+  | none : ExpText []
+  | some (e : Char) (sg ed : Str) (he : e = 'e' ∨ e = 'E') (hs : IsSign sg) (hd : ed.all isDigit = true) (hne : ed ≠ []) :
+      ExpText (e :: (sg ++ ed))
+
+theorem countWhile_append_le (p : Char → Bool) (x r : Str) (hr : ∀ c r', r = c :: r' → p c = false) :
+    countWhile p (x ++ r) ≤ x.length := by
+  induction x with
+  | nil =>
+    cases r with
+    | nil => simp [countWhile]
+    | cons c r' => simp [countWhile, hr c r' rfl]
+  | cons a x ih =>
+    simp only [List.cons_append, countWhile, List.length_cons]
+    split <;> omega
+
+/-- what may follow the mantissa: not a digit, not a dot -/
+def StopFrac (r : Str) : Prop := ∀ c r', r = c :: r' → isDigit c = false ∧ c ≠ '.'
+
+theorem matchFrac_text (m r : Str) (hm : FracText m) (hr : StopFrac r) : matchFrac (m ++ r) = some m.length := by
+  cases hm with
+  | int ip h hne =>
+    have hk := countWhile_append isDigit m r h (fun c r' e => (hr c r' e).1)
+    have hpos : 0 < m.length := by cases m with | nil => exact absurd rfl hne | cons _ _ => simp
+    simp only [matchFrac, hk, List.drop_left']
+    cases r with
+    | nil => simp [hpos]
+    | cons c r' =>
+      have := (hr c r' rfl).2
+      split
+      · rename_i r2 e; cases e; exact absurd rfl this
+      · simp [hpos]
+  | frac ip fp hi hf hne =>
+    have hk := countWhile_append isDigit ip ('.' :: (fp ++ r)) hi (by intro c r' e; cases e; decide)
+    have hm := countWhile_append isDigit fp r hf (fun c r' e => (hr c r' e).1)
+    have hfl : 0 < fp.length := by cases fp with | nil => exact absurd rfl hne | cons _ _ => simp
+    simp only [List.append_assoc, List.cons_append, matchFrac, hk, List.drop_left', hm, hfl, if_true, List.length_append, List.length_cons]
+    simp; omega
+
+theorem fracText_head (m : Str) (hm : FracText m) : ∃ a m', m = a :: m' ∧ a ≠ '+' ∧ a ≠ '-' := by
+  cases hm with
+  | int ip h hne =>
+    cases m with
+    | nil => exact absurd rfl hne
+    | cons a m' =>
+      simp only [List.all_cons, Bool.and_eq_true] at h
+      have := digit_not_sign h.1
+      exact ⟨a, m', rfl, this.1, this.2.1⟩
+  | frac ip fp hi hf hne =>
+    cases ip with
+    | nil => exact ⟨'.', fp, rfl, by decide, by decide⟩
+    | cons a ip' =>
+      simp only [List.all_cons, Bool.and_eq_true] at hi
+      have := digit_not_sign hi.1
+      exact ⟨a, _, rfl, this.1, this.2.1⟩
+
+
+theorem sign_match (sg rest : Str) (hs : IsSign sg) (hrest : ∀ a r', rest = a :: r' → a ≠ '+' ∧ a ≠ '-') :
+    (match sg ++ rest with | '+' :: _ => 1 | '-' :: _ => 1 | _ => 0) = sg.length := by
+  rcases hs with rfl | rfl | rfl
+  · simp only [List.nil_append, List.length_nil]
+    split
+    · exact absurd rfl (hrest _ _ rfl).1
+    · exact absurd rfl (hrest _ _ rfl).2
+    · rfl
+  · rfl
+  · rfl
+
+/-- the exponent part followed by a character that is not a digit -/
+theorem matchExp_text (x r : Str) (hx : ExpText x) (hr : ∀ c r', r = c :: r' → isDigit c = false ∧ (x = [] → c ≠ 'e' ∧ c ≠ 'E')) :
+    matchExp (x ++ r) = x.length := by
+  cases hx with
+  | none =>
+    cases r with
+    | nil => rfl
+    | cons c r' =>
+      have := (hr c r' rfl).2 rfl
+      simp only [List.nil_append, matchExp, List.length_nil]
+      have hc : (c == 'e' || c == 'E') = false := by simp [this.1, this.2]
+      simp [hc]
+  | some e sg ed he hs hd hne =>
+    have hc : (e == 'e' || e == 'E') = true := by rcases he with rfl | rfl <;> rfl
+    have hed : ∀ a r', ed ++ r = a :: r' → a ≠ '+' ∧ a ≠ '-' := by
+      intro a r' e
+      cases ed with
+      | nil => exact absurd rfl hne
+      | cons b ed' =>
+        simp only [List.cons_append, List.cons.injEq] at e
+        simp only [List.all_cons, Bool.and_eq_true] at hd
+        have := digit_not_sign hd.1
+        rw [← e.1]; exact ⟨this.1, this.2.1⟩
+    have hsg := sign_match sg (ed ++ r) hs hed
+    have hk := countWhile_append isDigit ed r hd (fun c r' e => (hr c r' e).1)
+    have hpos : 0 < ed.length := by cases ed with | nil => exact absurd rfl hne | cons _ _ => simp
+    simp only [List.cons_append, List.append_assoc, matchExp, hc, if_true]
+    -- the sign matcher of matchExp is the same function as the one of `sign_match`
+    have : (match sg ++ (ed ++ r) with | '+' :: _ => 1 | '-' :: _ => 1 | _ => 0) = sg.length := hsg
+    rcases hs with rfl | rfl | rfl
+    · simp only [List.nil_append] at *
+      split
+      · rename_i r2 e; exact absurd rfl (hed _ _ e).1
+      · rename_i r2 e; exact absurd rfl (hed _ _ e).2
+      · simp [hk, hpos]; omega
+    · simp [hk, hpos]; omega
+    · simp [hk, hpos]; omega
+
+
+theorem matchNum_nosign (c a : Char) (y : Str) (h1 : a ≠ '+') (h2 : a ≠ '-') :
+    matchNum c (a :: y) = if (c == 'i') = true then (if countWhile isDigit (a :: y) > 0 then some (countWhile isDigit (a :: y)) else none)
+      else (matchFrac (a :: y)).bind (fun b => if (c == 'f') = true then some (b + matchExp ((a :: y).drop b)) else some b) := by
+  unfold matchNum
+  simp only []
+  cases hf : matchFrac (a :: y) <;> (repeat' split) <;> simp_all
+
+theorem matchNum_signed (c s : Char) (y : Str) (hs : s = '+' ∨ s = '-') :
+    matchNum c (s :: y) = if (c == 'i') = true then (if countWhile isDigit y > 0 then some (1 + countWhile isDigit y) else none)
+      else (matchFrac y).bind (fun b => if (c == 'f') = true then some (1 + b + matchExp (y.drop b)) else some (1 + b)) := by
+  unfold matchNum
+  simp only []
+  rcases hs with rfl | rfl <;> (cases hf : matchFrac y <;> (repeat' split) <;> simp_all)
+
+/-- the text after the prefix letter of a float literal: sign, mantissa, exponent -/
+structure FloatBody (b : Str) : Prop where
+  parts : ∃ sg m x, b = sg ++ (m ++ x) ∧ IsSign sg ∧ FracText m ∧ ExpText x
+/-- … of a decimal literal: sign, mantissa -/
+structure DecBody (b : Str) : Prop where
+  parts : ∃ sg m, b = sg ++ m ∧ IsSign sg ∧ FracText m
+/-- … of an integer literal: sign, digits -/
+structure IntBody (b : Str) : Prop where
+  parts : ∃ sg D, b = sg ++ D ∧ IsSign sg ∧ D.all isDigit = true ∧ D ≠ []
+
+theorem Sep.stopFrac {r : Str} (h : Sep r) : StopFrac r := fun c r' e =>
+  ⟨(h.facts c r' e).notDigit, (h.facts c r' e).ne.2.2.2.1⟩
+
+theorem expText_head_stop (x r : Str) (hx : ExpText x) (hr : Sep r) : StopFrac (x ++ r) := by
+  cases hx with
+  | none => simpa using hr.stopFrac
+  | some e sg ed he hs hd hne =>
+    intro c r' h
+    simp only [List.cons_append, List.cons.injEq] at h
+    rw [← h.1]
+    rcases he with rfl | rfl <;> exact ⟨by decide, by decide⟩
+
+theorem matchNum_float (b r : Str) (hb : FloatBody b) (hr : Sep r) : matchNum 'f' (b ++ r) = some b.length := by
+  obtain ⟨sg, m, x, rfl, hs, hm, hx⟩ := hb.parts
+  have hfr := matchFrac_text m (x ++ r) hm (expText_head_stop x r hx hr)
+  have hex := matchExp_text x r hx (fun c r' e => ⟨(hr.facts c r' e).notDigit, fun _ => ⟨(hr.facts c r' e).ne.2.2.2.2.2.2.2.2.1, (hr.facts c r' e).ne.2.2.2.2.2.2.2.2.2⟩⟩)
+  obtain ⟨a, m', rfl, h1, h2⟩ := fracText_head m hm
+  rcases hs with rfl | rfl | rfl
+  · simp only [List.nil_append, List.cons_append, List.append_assoc] at hfr ⊢
+    rw [matchNum_nosign 'f' a _ h1 h2]
+    simp only [show ('f' == 'i') = false by decide, Bool.false_eq_true, if_false, hfr, Option.bind_some, beq_self_eq_true, if_true]
+    have : List.drop (a :: m').length (a :: (m' ++ (x ++ r))) = x ++ r := by
+      have := List.drop_left' (l₁ := a :: m') (l₂ := x ++ r) rfl
+      simp
+    rw [this, hex]; simp; omega
+  · simp only [List.cons_append, List.nil_append, List.append_assoc] at hfr ⊢
+    rw [matchNum_signed 'f' '+' _ (Or.inl rfl)]
+    simp only [show ('f' == 'i') = false by decide, Bool.false_eq_true, if_false, hfr, Option.bind_some, beq_self_eq_true, if_true]
+    have : List.drop (a :: m').length (a :: (m' ++ (x ++ r))) = x ++ r := by
+      have := List.drop_left' (l₁ := a :: m') (l₂ := x ++ r) rfl
+      simp
+    rw [this, hex]; simp; omega
+  · simp only [List.cons_append, List.nil_append, List.append_assoc] at hfr ⊢
+    rw [matchNum_signed 'f' '-' _ (Or.inr rfl)]
+    simp only [show ('f' == 'i') = false by decide, Bool.false_eq_true, if_false, hfr, Option.bind_some, beq_self_eq_true, if_true]
+    have : List.drop (a :: m').length (a :: (m' ++ (x ++ r))) = x ++ r := by
+      have := List.drop_left' (l₁ := a :: m') (l₂ := x ++ r) rfl
+      simp
+    rw [this, hex]; simp; omega
+
+theorem matchNum_dec (b r : Str) (hb : DecBody b) (hr : Sep r) : matchNum 'd' (b ++ r) = some b.length := by
+  obtain ⟨sg, m, rfl, hs, hm⟩ := hb.parts
+  have hfr := matchFrac_text m r hm hr.stopFrac
+  obtain ⟨a, m', rfl, h1, h2⟩ := fracText_head m hm
+  rcases hs with rfl | rfl | rfl
+  · simp only [List.nil_append, List.cons_append] at hfr ⊢
+    rw [matchNum_nosign 'd' a _ h1 h2]
+    simp [hfr]
+  · simp only [List.cons_append, List.nil_append] at hfr ⊢
+    rw [matchNum_signed 'd' '+' _ (Or.inl rfl)]
+    simp [hfr]; omega
+  · simp only [List.cons_append, List.nil_append] at hfr ⊢
+    rw [matchNum_signed 'd' '-' _ (Or.inr rfl)]
+    simp [hfr]; omega
+
+theorem matchNum_int (b r : Str) (hb : IntBody b) (hr : Sep r) : matchNum 'i' (b ++ r) = some b.length := by
+  obtain ⟨sg, D, rfl, hs, hD, hne⟩ := hb.parts
+  have hk := countWhile_append isDigit D r hD hr.notDigit
+  have hpos : 0 < D.length := by cases D with | nil => exact absurd rfl hne | cons _ _ => simp
+  rcases hs with rfl | rfl | rfl
+  · obtain ⟨a, D', rfl⟩ : ∃ a D', D = a :: D' := by cases D with | nil => exact absurd rfl hne | cons a D' => exact ⟨a, D', rfl⟩
+    simp only [List.all_cons, Bool.and_eq_true] at hD
+    have := digit_not_sign hD.1
+    simp only [List.nil_append, List.cons_append] at hk ⊢
+    rw [matchNum_nosign 'i' a _ this.1 this.2.1]
+    simp [hk]
+  · simp only [List.cons_append, List.nil_append]
+    rw [matchNum_signed 'i' '+' _ (Or.inl rfl)]
+    simp [hk, hpos]; omega
+  · simp only [List.cons_append, List.nil_append]
+    rw [matchNum_signed 'i' '-' _ (Or.inr rfl)]
+    simp [hk, hpos]; omega
+
+
+/-- a numeric literal `i… / f… / d…` whose body the number matcher consumes entirely, in front of a separator -/
+theorem step_num_sep (c : Char) (b r : Str) (hc : c = 'i' ∨ c = 'f' ∨ c = 'd') (hm : matchNum c (b ++ r) = some b.length)
+    (hr : Sep r) : step (c :: b ++ r) = some (some (mkNum c (c :: b)), r) := by
+  have halpha : isAlpha c = true := by rcases hc with rfl | rfl | rfl <;> decide
+  have h1 := alpha_not_white halpha
+  have h2 : c ≠ '/' := by rcases hc with rfl | rfl | rfl <;> decide
+  have hg : (c == 'i' || c == 'f' || c == 'd') = true := by rcases hc with rfl | rfl | rfl <;> rfl
+  have hcw := countWhile_append_le isIdc b r hr.notIdc
+  have hw : stepWord c (b ++ r) = (mkNum c (c :: b), r) := by
+    simp only [stepWord, hg, if_true, hm]
+    rw [if_pos (by omega)]
+    simp [List.take_left', List.drop_left']
+  simp only [List.cons_append, step, h1, halpha, hw]
+  simp [h2]
+
+theorem step_float_sep (b r : Str) (hb : FloatBody b) (hr : Sep r) : step ('f' :: b ++ r) = some (some (.float ('f' :: b)), r) := by
+  have := step_num_sep 'f' b r (Or.inr (Or.inl rfl)) (matchNum_float b r hb hr) hr
+  simpa [mkNum] using this
+
+theorem step_decg_sep (b r : Str) (hb : DecBody b) (hr : Sep r) : step ('d' :: b ++ r) = some (some (.dec ('d' :: b)), r) := by
+  have := step_num_sep 'd' b r (Or.inr (Or.inr rfl)) (matchNum_dec b r hb hr) hr
+  simpa [mkNum] using this
+
+theorem step_intg_sep (b r : Str) (hb : IntBody b) (hr : Sep r) : step ('i' :: b ++ r) = some (some (.int ('i' :: b)), r) := by
+  have := step_num_sep 'i' b r (Or.inl rfl) (matchNum_int b r hb hr) hr
+  simpa [mkNum] using this
+
+/-- radix literals `0x… / 0o… / 0b…` -/
+theorem step_radix_sep (x : Char) (p : Char → Bool) (mk : Str → Tok) (D r : Str)
+    (hx : (x = 'x' ∧ p = isHex ∧ mk = Tok.hex) ∨ (x = 'o' ∧ p = isOct ∧ mk = Tok.oct) ∨ (x = 'b' ∧ p = isBin ∧ mk = Tok.bin))
+    (hD : D.all p = true) (hne : D ≠ []) (hp : ∀ c, p c = true → isIdc c = true) (hr : Sep r) :
+    step ('0' :: x :: D ++ r) = some (some (mk ('0' :: x :: D)), r) := by
+  have hk := countWhile_append p D r hD (fun c r' e => by
+    cases h : p c
+    · rfl
+    · have := hp c h; rw [hr.notIdc c r' e] at this; cases this)
+  have hpos : 0 < D.length := by cases D with | nil => exact absurd rfl hne | cons _ _ => simp
+  have hrad : matchRadix (x :: D ++ r) = some (1 + D.length, mk) := by
+    rcases hx with ⟨rfl, rfl, rfl⟩ | ⟨rfl, rfl, rfl⟩ | ⟨rfl, rfl, rfl⟩ <;> simp [matchRadix, hk, hpos]
+  have hcd : countWhile isDigit (x :: D ++ r) = 0 := by
+    rcases hx with ⟨rfl, _, _⟩ | ⟨rfl, _, _⟩ | ⟨rfl, _, _⟩ <;> simp [countWhile, isDigit]
+  simp only [List.cons_append] at hrad hcd ⊢
+  simp [step, Str.isWhite, isAlpha, isDigit, stepDigit, hrad, hcd, List.take_succ_cons, List.take_left', List.drop_left', Nat.add_comm]
+
+
+/-- the string scanner does not look past the closing quote -/
+theorem scanStr_append (x r : Str) : ∀ n, scanStr x = some n → scanStr (x ++ r) = some n := by
+  fun_induction scanStr x with
+  | case1 => intro n h; cases h
+  | case2 => intro n h; cases h
+  | case3 c r0 hc => intro n h; cases h
+  | case4 c r0 hc ih =>
+    intro n h
+    simp only [List.cons_append, scanStr, hc, if_false, Bool.false_eq_true]
+    cases hs : scanStr r0 with
+    | none => simp [hs] at h
+    | some m =>
+      simp only [hs, Option.map_some, Option.some.injEq] at h
+      rw [ih m hs]; simp [h]
+  | case5 c r0 hnb hq hquote =>
+    intro n h
+    cases h
+    have hq' : c = '"' := by simpa using hquote
+    subst hq'
+    simp [scanStr]
+  | case6 c r0 hnb hq hnq ih =>
+    intro n h
+    have hc : c ≠ '\\' := by
+      intro e
+      cases r0 with
+      | nil => exact hnb e rfl
+      | cons d r1 => exact hq d r1 e rfl
+    cases hs : scanStr r0 with
+    | none => simp [hs] at h
+    | some m =>
+      simp only [hs, Option.map_some, Option.some.injEq] at h
+      have := ih m hs
+      simp only [List.cons_append]
+      rw [scanStr.eq_def]
+      split
+      · rename_i e; cases e
+      · rename_i e; simp only [List.cons.injEq] at e; exact absurd e.1 hc
+      · rename_i e; simp only [List.cons.injEq] at e; exact absurd e.1 hc
+      · rename_i c' r' _ _ e
+        simp only [List.cons.injEq] at e
+        obtain ⟨rfl, rfl⟩ := e
+        simp only [hnq, if_false, Bool.false_eq_true, this, Option.map_some, h]
+
+/-- a string literal — whatever is between the quotes, as long as the scanner accepts it — in front of anything -/
+theorem step_string_raw (body r : Str) (h : scanStr body = some body.length) :
+    step ('"' :: body ++ r) = some (some (.str ('"' :: body)), r) := by
+  have := scanStr_append body r _ h
+  simp [step, Str.isWhite, isAlpha, isDigit, stepString, this, List.take_left', List.drop_left']
+
+
+
+theorem hex_idc {c : Char} (h : isHex c = true) : isIdc c = true := by
+  simp only [isHex, Bool.or_eq_true, Bool.and_eq_true, decide_eq_true_eq, char_le_iff] at h
+  simp only [isIdc, isAlpha, Bool.or_eq_true, Bool.and_eq_true, decide_eq_true_eq, char_le_iff, beq_iff_eq]
+  rcases h with (h | h) | h
+  · exact Or.inl (Or.inr h)
+  · exact Or.inl (Or.inl (Or.inl ⟨h.1, by have := h.2; simp at this ⊢; omega⟩))
+  · exact Or.inl (Or.inl (Or.inr ⟨h.1, by have := h.2; simp at this ⊢; omega⟩))
+theorem oct_idc {c : Char} (h : isOct c = true) : isIdc c = true := by
+  simp only [isOct, Bool.and_eq_true, decide_eq_true_eq, char_le_iff] at h
+  simp only [isIdc, isDigit, Bool.or_eq_true, Bool.and_eq_true, decide_eq_true_eq, char_le_iff, beq_iff_eq]
+  exact Or.inl (Or.inr ⟨h.1, by have := h.2; simp at this ⊢; omega⟩)
+theorem bin_idc {c : Char} (h : isBin c = true) : isIdc c = true := by
+  simp only [isBin, Bool.or_eq_true, beq_iff_eq] at h
+  rcases h with rfl | rfl <;> decide
+
 /-! ### tokens separated by arbitrary gaps -/
 
 /-- a token together with its text: keywords, identifiers, INDEX numbers, integer, decimal and string literals as the
@@ -421,7 +748,16 @@ inductive PTok : Tok → Str → Prop
       PTok (.int ('i' :: (if neg then '-' :: D else D))) ('i' :: (if neg then '-' :: D else D))
   | dec (d : Dec) : PTok (.dec ('d' :: showDec d)) ('d' :: showDec d)
   | str (s : Str) : PTok (.str ('"' :: escapeStr s ++ ['"'])) ('"' :: escapeStr s ++ ['"'])
+  -- the token classes in general (whatever the lexer's regexes match, not only what the printer writes):
+  | intg (b : Str) (h : IntBody b) : PTok (.int ('i' :: b)) ('i' :: b)                    -- i[+-]?[0-9]+
+  | floatg (b : Str) (h : FloatBody b) : PTok (.float ('f' :: b)) ('f' :: b)              -- f[+-]?[0-9]*\.?[0-9]+([eE][+-]?[0-9]+)?
+  | decg (b : Str) (h : DecBody b) : PTok (.dec ('d' :: b)) ('d' :: b)                    -- d[+-]?[0-9]*\.?[0-9]+
+  | hex (D : Str) (h : D.all isHex = true) (hne : D ≠ []) : PTok (.hex ('0' :: 'x' :: D)) ('0' :: 'x' :: D)
+  | oct (D : Str) (h : D.all isOct = true) (hne : D ≠ []) : PTok (.oct ('0' :: 'o' :: D)) ('0' :: 'o' :: D)
+  | bin (D : Str) (h : D.all isBin = true) (hne : D ≠ []) : PTok (.bin ('0' :: 'b' :: D)) ('0' :: 'b' :: D)
+  | strRaw (body : Str) (h : scanStr body = some body.length) : PTok (.str ('"' :: body)) ('"' :: body)  -- "[^"\\]*(\\.[^"\\]*)*"
   | p1 (c : Char) (hc : c ∈ p1Chars) : PTok (.p [c]) [c]
+  | p1x (c : Char) (hc : c = '=' ∨ c = '@' ∨ c = ';') : PTok (.p [c]) [c]     -- the punctuation the printer never writes
   | p2 (c : Char) (hc : c ∈ ['=', '!', '>', '<']) : PTok (.p [c, '=']) [c, '=']
 
 theorem ptok_step {t : Tok} {w : Str} (h : PTok t w) {r : Str} (hr : Sep r) (hslash : w = ['/'] → ∀ r', r ≠ '/' :: r') :
@@ -441,7 +777,20 @@ theorem ptok_step {t : Tok} {w : Str} (h : PTok t w) {r : Str} (hr : Sep r) (hsl
   | int D neg hD hne => exact step_int_sep D r neg hD hne hr
   | dec d => exact dec_step_sep d r hr
   | str s => simpa [List.append_assoc] using step_string s r
+  | intg b h => exact step_intg_sep b r h hr
+  | floatg b h => exact step_float_sep b r h hr
+  | decg b h => exact step_decg_sep b r h hr
+  | hex D h hne => exact step_radix_sep 'x' isHex Tok.hex D r (Or.inl ⟨rfl, rfl, rfl⟩) h hne (fun c hc => hex_idc hc) hr
+  | oct D h hne => exact step_radix_sep 'o' isOct Tok.oct D r (Or.inr (Or.inl ⟨rfl, rfl, rfl⟩)) h hne (fun c hc => oct_idc hc) hr
+  | bin D h hne => exact step_radix_sep 'b' isBin Tok.bin D r (Or.inr (Or.inr ⟨rfl, rfl, rfl⟩)) h hne (fun c hc => bin_idc hc) hr
+  | strRaw body h => exact step_string_raw body r h
   | p1 c hc => exact step_punct1_sep c r hc hr (fun e => hslash (by rw [e]))
+  | p1x c hc =>
+    cases r with
+    | nil => rcases hc with rfl | rfl | rfl <;> simp [step, stepPunct, punct1, Str.isWhite, isAlpha, isDigit]
+    | cons d r' =>
+      have h2 := (hr.facts d r' rfl).ne.1
+      rcases hc with rfl | rfl | rfl <;> simp [step, stepPunct, punct1, punct2, Str.isWhite, isAlpha, isDigit, h2]
   | p2 c hc => exact step_punct2 c r hc
 
 theorem ptok_head {t : Tok} {w : Str} (h : PTok t w) : ∃ c w', w = c :: w' ∧ Str.isWhite c = false := by
@@ -452,10 +801,18 @@ theorem ptok_head {t : Tok} {w : Str} (h : PTok t w) : ∃ c w', w = c :: w' ∧
   | int D neg hD hne => exact ⟨'i', _, rfl, by decide⟩
   | dec d => exact ⟨'d', _, rfl, by decide⟩
   | str s => exact ⟨'"', _, rfl, by decide⟩
+  | intg b h => exact ⟨'i', _, rfl, by decide⟩
+  | floatg b h => exact ⟨'f', _, rfl, by decide⟩
+  | decg b h => exact ⟨'d', _, rfl, by decide⟩
+  | hex D h hne => exact ⟨'0', _, rfl, by decide⟩
+  | oct D h hne => exact ⟨'0', _, rfl, by decide⟩
+  | bin D h hne => exact ⟨'0', _, rfl, by decide⟩
+  | strRaw body h => exact ⟨'"', _, rfl, by decide⟩
   | p1 c hc =>
     refine ⟨c, [], rfl, ?_⟩
     simp only [p1Chars, List.mem_cons, List.not_mem_nil, or_false] at hc
     rcases hc with rfl | rfl | rfl | rfl | rfl | rfl | rfl | rfl | rfl | rfl | rfl | rfl | rfl | rfl | rfl | rfl | rfl | rfl | rfl | rfl <;> decide
+  | p1x c hc => exact ⟨c, [], rfl, by rcases hc with rfl | rfl | rfl <;> decide⟩
   | p2 c hc =>
     refine ⟨c, ['='], rfl, ?_⟩
     simp only [List.mem_cons, List.not_mem_nil, or_false] at hc
